@@ -36,6 +36,13 @@ class Tag(models.Model):
         app_label = "djapp"
 
 
+class PositiveManager(models.Manager):
+    """A restricting and ordering custom manager (C15: a Manager passed as the base query)."""
+
+    def get_queryset(self):
+        return super().get_queryset().filter(k__gte=1).order_by("-k", "id")
+
+
 class Item(models.Model):
     i1 = models.IntegerField(null=True)
     i2 = models.IntegerField(null=True)
@@ -49,6 +56,9 @@ class Item(models.Model):
     g1 = models.UUIDField(null=True)
     owner = models.ForeignKey(Owner, null=True, on_delete=models.SET_NULL, related_name="items")
     tags = models.ManyToManyField(Tag, related_name="items")
+
+    objects = models.Manager()
+    positive = PositiveManager()
 
     class Meta:
         app_label = "djapp"
